@@ -160,6 +160,7 @@ fn main() {
             "worker" => drivers::worker(&rest),
             "encode" => drivers::encode_cmd(&rest),
             "fields" => drivers::fields_cmd(&rest),
+            "encbytes" => drivers::encbytes_cmd(&rest),
             "gen" => gen::gen_cmd(&rest),
             "faults" => gen::faults_cmd(&rest),
             "cuts" => drivers::cuts_cmd(&rest),
